@@ -10,7 +10,10 @@ mod c14;
 mod c18;
 mod c19;
 mod c20;
+mod c29;
 mod c30;
+mod c31;
+mod c38;
 
 fn main() {
     vcommon::quiet_panics();
@@ -20,7 +23,10 @@ fn main() {
         "C18" => c18::main(&args),
         "C19" => c19::main(&args),
         "C20" => c20::main(&args),
+        "C29" => c29::main(&args),
         "C30" => c30::main(&args),
+        "C31" => c31::main(&args),
+        "C38" => c38::main(&args),
         other => vcommon::machinery_failure(&format!("zbm: unknown property id {other}")),
     };
     std::process::exit(code);
